@@ -46,6 +46,7 @@ def bases(tmp):
     arff = "@relation r\n@attribute x numeric\n@attribute y numeric\n@attribute lbl {L,M,N}\n@data\n" + "\n".join("%d,%d,%s" % (i % 4, (i * 3) % 7, "LMN"[i % 3]) for i in range(36))
     csvf = os.path.join(tmp, "d.csv"); open(csvf, "w").write(csv)
     arfff = os.path.join(tmp, "d.arff"); open(arfff, "w").write(arff)
+    arff2f = os.path.join(tmp, "d2.arff"); open(arff2f, "w").write(arff.replace("{L,M,N}", "{L,M}").replace(",N", ",M"))
     def lam():
         return Environments.from_lambda(45, lambda i: [i % 5, i % 3], lambda i, c: [0, 1, 2], lambda i, c, a: float((a + i) % 3 == 0))
     def lam_sparse():      # sparse contexts whose later interactions bring feature names not seen before
@@ -58,8 +59,12 @@ def bases(tmp):
         "bandit":    (lambda: Environments.from_bandit_synthetic(40, n_actions=3, seed=4), "sim-nocontext"),
         "lambda":    (lam, "sim-dense"),
         "sup-seq":   (lambda: Environments.from_supervised(X, Y), "sim-cat"),
-        "sup-csv":   (lambda: Environments.from_supervised(__import__("coba").pipes.CsvSource(csvf, has_header=True), label_col="lbl"), "sim-cat"),
-        "sup-arff":  (lambda: Environments.from_supervised(__import__("coba").pipes.ArffSource(arfff), label_col="lbl"), "sim-cat"),
+        # two classes / two actions: after repr() the actions are one-hot PAIRS, and a reward's argmax is a 2-tuple
+        "sup-2cls":  (lambda: Environments.from_supervised(X, [["a", "b"][(i * i) % 2] for i in range(40)]), "sim-cat"),
+        "sup-arff2": (lambda: Environments.from_supervised(__import__("coba").environments.ArffSource(arff2f), label_col="lbl"), "sim-cat"),
+        "linear-2":  (lambda: Environments.from_linear_synthetic(40, n_actions=2, n_context_features=2, n_action_features=0, seed=9), "sim-dense"),
+        "sup-csv":   (lambda: Environments.from_supervised(__import__("coba").environments.CsvSource(csvf, has_header=True), label_col="lbl"), "sim-cat"),
+        "sup-arff":  (lambda: Environments.from_supervised(__import__("coba").environments.ArffSource(arfff), label_col="lbl"), "sim-cat"),
         "logged":    (lambda: Environments.from_linear_synthetic(50, n_actions=3, n_context_features=2, n_action_features=2, seed=7).logged(RandomLearner(), seed=2.5), "logged"),
         "logged-fx": (lambda: lam().logged(FixedLearner([.5, .25, .25]), seed=4), "logged"),
     }, (X, Y)
@@ -67,12 +72,13 @@ def bases(tmp):
 
 STEPS = {
     "shuffle7": lambda e: e.shuffle(seed=7), "shuffle0": lambda e: e.shuffle(seed=0), "take30": lambda e: e.take(30), "take100s": lambda e: e.take(100, strict=True),
-    "slice": lambda e: e.slice(2, 33, 2), "reservoir": lambda e: e.reservoir(20, seeds=3), "scale": lambda e: e.scale("mean", "std"), "scale10": lambda e: e.scale("min", "minmax", using=10),
+    "slice": lambda e: e.slice(2, 33, 2), "reservoir": lambda e: e.reservoir(20, seeds=3), "scale": lambda e: e.scale("mean", "std"), "scale10": lambda e: e.scale("min", "minmax", using=10), "scale0": lambda e: e.scale(0, "maxabs", using=10),
     "impute": lambda e: e.impute("mean"), "sparse": lambda e: e.sparse(), "dense-h": lambda e: e.dense(8, "hashing"), "dense-l": lambda e: e.dense(8, "lookup"),
     "flatten": lambda e: e.flatten(), "sort0": lambda e: e.sort(0), "where": lambda e: e.where(n_interactions=(5, None)), "batch3": lambda e: e.batch(3), "unbatch": lambda e: e.unbatch(),
     "cycle5": lambda e: e.cycle(5), "riffle": lambda e: e.riffle(3, seed=2), "params": lambda e: e.params({"tag": 1}), "repr": lambda e: e.repr("onehot", "onehot"), "binary": lambda e: e.binary(),
     "noise": lambda e: e.noise(context=(0, .1), seed=3), "cache": lambda e: e.cache(), "chunk": lambda e: e.chunk(), "materialize": lambda e: e.materialize(), "ope": lambda e: e.ope_rewards("IPS"),
     "logged": lambda e: e.logged(__import__("coba").learners.RandomLearner(), seed=1.5),
+    "grounded": lambda e: e.grounded(5, 3, 4, 2, seed=1),
 }
 WRAPS = ["cache", "chunk", "materialize"]
 
@@ -85,7 +91,8 @@ def pipelines(tmp, rng, count):
     fixed = [("linear", ["cache"]), ("linear", ["chunk", "shuffle7"]), ("logged", ["shuffle7"]), ("logged", ["shuffle7", "cache"]), ("logged-fx", ["shuffle0", "take30"]),
              ("sup-seq", []), ("sup-seq", ["cache"]), ("sup-csv", ["shuffle7"]), ("sup-arff", ["scale"]), ("linear", ["dense-l"]), ("linear", ["sparse", "dense-l", "cache"]),
              ("lambda", ["batch3", "cache"]), ("neighbors", ["materialize"]), ("kernel", ["reservoir", "chunk"]), ("bandit", ["cycle5", "cache"]), ("linear", ["logged", "shuffle7", "chunk"]),
-             ("lambda-sparse", ["dense-l"]), ("lambda-sparse", ["dense-l", "take30"]), ("lambda-sparse", ["shuffle7", "dense-h"]), ("lambda-sparse", ["scale10", "cache"])]
+             ("lambda-sparse", ["dense-l"]), ("lambda-sparse", ["dense-l", "take30"]), ("lambda-sparse", ["shuffle7", "dense-h"]), ("lambda-sparse", ["scale0", "cache"]),
+             ("sup-arff2", ["repr", "materialize"]), ("sup-2cls", ["repr", "cache"]), ("linear-2", ["grounded", "materialize"]), ("linear-2", ["repr", "shuffle7", "materialize"])]
     chains = list(fixed)
     while len(chains) < count:
         b = rng.choice(sorted(B)); k = rng.randrange(0, 4)
@@ -132,10 +139,12 @@ def run(ctx):
             ref_env = factory(); ref = [canon(i) for i in ref_env.read()]; ref_params = canon(dict(ref_env.params))
             again = [canon(i) for i in factory().read()]
         except Exception as e:
+            if pipes.index((desc, factory)) < 24:     # the curated pipelines are type-compatible by construction
+                ctx.violation("curated:first-read-raises", "a fresh %s cannot be read even once: %s: %s" % (desc, type(e).__name__, str(e)[:150]), dict(pipeline=desc))
             skipped += 1; continue            # not a type-compatible chain: a fresh object cannot even be read once
         if again != ref:
             skipped += 1; continue            # not deterministic by construction (time-seeded component): outside the property
-        nh = per if pipes.index((desc, factory)) >= 20 else min(len(hists), 4 * per)      # the curated pipelines get four times as many histories
+        nh = per if pipes.index((desc, factory)) >= 24 else min(len(hists), 4 * per)      # the curated pipelines get four times as many histories
         for h in (hists if nh >= len(hists) else rng.sample(hists, nh)):
             ctx.case(json.dumps([desc, h]))
             bad = replay(factory, h, ref, ref_params)
@@ -151,7 +160,7 @@ def run(ctx):
     if len(pipes) - skipped < 15: raise RuntimeError("too few usable pipelines")
     # save()/from_save(): the saved form read repeatedly
     from coba.environments import Environments
-    for desc, factory in pipes[:ctx.pick(6, 30)]:
+    for desc, factory in pipes[:ctx.pick(6, 30)] + [p for p in pipes[20:24]]:
         try:
             ref = [canon(i) for i in factory().read()]
             f = os.path.join(tmp, "sv.zip")
@@ -163,6 +172,7 @@ def run(ctx):
         ctx.case("save|" + desc)
         r1 = [canon(i) for i in saved.read()]; it = iter(saved.read()); next(it, None); del it; r2 = [canon(i) for i in saved.read()]
         if not (r1 == r2): ctx.violation("from_save:reread", "a saved environment read twice gives different sequences  pipeline=%s" % desc, dict(pipeline=desc))
+        elif r1 != ref: ctx.violation("from_save:differs", "the saved environment does not yield the sequence that was saved%s  pipeline=%s" % (_first(r1, ref), desc), dict(pipeline=desc))
     ctx.assumptions += ["components seeded with None (time-seeded by design) and one-shot sources are outside the property", "a chain whose first read on a fresh object raises is not type-compatible and is skipped (counted in chains_skipped_as_incompatible)",
                         "abstract drop points 0..3 of the model (N=4, slice 2) are mapped to real positions 0, 1, 25 (one cache slice) and 30"]
 
